@@ -1,0 +1,39 @@
+//go:build verif
+// +build verif
+
+// Exported wrappers used only by the verification harness (build tag "verif").
+// Add-only: nothing here is compiled without the tag.
+
+package redis
+
+import "strconv"
+
+// VerifCrc16 is crc16.
+func VerifCrc16(b []byte) uint16 { return crc16(b) }
+
+// VerifHashtag is hashtag.
+func VerifHashtag(b []byte) []byte { return hashtag(b) }
+
+var verifSlotUpstream *upstream
+
+// VerifSlot returns the slot index upstream.chooseHost routes key by: every slot of
+// a scratch upstream is owned by an instance whose address is the slot number.
+func VerifSlot(key []byte) int {
+	if verifSlotUpstream == nil {
+		u := &upstream{cfg: &config{}}
+		for i := range u.slots {
+			u.slots[i] = &instance{Addr: strconv.Itoa(i)}
+		}
+		verifSlotUpstream = u
+	}
+	req := newSimpleRequest(newStringArray("set", "k", "v"))
+	addr, err := verifSlotUpstream.chooseHost(key, req)
+	if err != nil {
+		return -1
+	}
+	n, err := strconv.Atoi(addr)
+	if err != nil {
+		return -1
+	}
+	return n
+}
